@@ -417,6 +417,8 @@ pub fn gen(rng: &mut Rng, thorough: bool, out: &mut Vec<String>) {
     for c in ["lookup_table", "round_constants", "mds_first_column", "sizes"] {
         out.push(format!("tip5 const {}", c));
     }
+    out.push("tip5 newstate fixed".into());
+    out.push("tip5 newstate varlen".into());
     for b in 0..256u64 {
         out.push(format!("tip5 lut {}", b));
         out.push(format!("tip5 fermat {}", b));
@@ -434,7 +436,7 @@ pub fn gen(rng: &mut Rng, thorough: bool, out: &mut Vec<String>) {
     }
     out.push(format!("tip5 genfn {}", fmt_list_u64(&[0xffff_ffff; 16])));
     out.push(format!("tip5 genfn {}", fmt_list_u64(&[u64::MAX; 16])));
-    let n_gen = if thorough { 4000 } else { 150 };
+    let n_gen = if thorough { 10_000 } else { 150 };
     for _ in 0..n_gen {
         let wide = rng.coin(1, 4);
         let x: Vec<u64> = (0..16)
@@ -460,7 +462,7 @@ pub fn gen(rng: &mut Rng, thorough: bool, out: &mut Vec<String>) {
         out.push(format!("tip5 digesthash {}", fmt_list_u64(&[v; 5])));
     }
     // directed: every round x every lane x every corner of the linear layer
-    let reps = if thorough { 12 } else { 1 };
+    let reps = if thorough { 40 } else { 1 };
     for _ in 0..reps {
         for r in 0..5 {
             for i in 0..16 {
@@ -477,7 +479,7 @@ pub fn gen(rng: &mut Rng, thorough: bool, out: &mut Vec<String>) {
     }
     // directed: chosen raw words (bytes 00/ff, limb extremes) and elements 0,1,P-1 entering the S-boxes of round r,
     // and chosen raw words entering the linear layer of round r
-    let n_dir = if thorough { 6000 } else { 250 };
+    let n_dir = if thorough { 20_000 } else { 250 };
     for _ in 0..n_dir {
         let r = rng.below(5) as usize;
         let mut v = [0u64; 16];
@@ -495,7 +497,7 @@ pub fn gen(rng: &mut Rng, thorough: bool, out: &mut Vec<String>) {
         }
     }
     // random / boundary states through every public entry point
-    let n = if thorough { 60_000 } else { 1200 };
+    let n = if thorough { 200_000 } else { 1200 };
     for _ in 0..n {
         let s = state_values(rng);
         match rng.below(10) {
@@ -550,7 +552,8 @@ pub fn run_tip5(op: &str, a: &[Arg], st: &mut Stats) -> Option<Out> {
         ("trace", [xs]) => {
             let v: [u64; 16] = canon_vals(xs, 16)?.try_into().ok()?;
             let state = v.map(BFieldElement::new);
-            let tr = Tip5 { state }.trace();
+            let mut traced = Tip5 { state };
+            let tr = traced.trace();
             let mut p = Tip5 { state };
             p.permutation();
             let mut ok_round = true;
@@ -567,6 +570,7 @@ pub fn run_tip5(op: &str, a: &[Arg], st: &mut Stats) -> Option<Out> {
                 .with_oracle(ok_canon, "a traced state holds a non-canonical word")
                 .with_oracle(ok_round, "a traced round differs from the Tip5 specification round")
                 .with_oracle(tr[NUM_ROUNDS] == p.state, "trace's last state differs from permutation()")
+                .with_oracle(traced.state == p.state, "trace() does not leave the sponge in the permuted state")
         }
         ("perm", [xs]) => {
             let v: [u64; 16] = canon_vals(xs, 16)?.try_into().ok()?;
@@ -683,6 +687,14 @@ pub fn run_tip5(op: &str, a: &[Arg], st: &mut Stats) -> Option<Out> {
             }
             let r = LOOKUP_TABLE[b] as u64;
             Out::ok(format!("ok:{}", r)).with_oracle(r == fermat_cube(b as u64), "LOOKUP_TABLE entry differs from the offset Fermat cube map")
+        }
+        ("newstate", [d]) => {
+            let t = match d.sym()? {
+                "fixed" => Tip5::new(twenty_first::util_types::sponge::Domain::FixedLength),
+                "varlen" => Tip5::new(twenty_first::util_types::sponge::Domain::VariableLength),
+                _ => return None,
+            };
+            Out::ok(format!("ok:{}", fmt_state(&t.state))).with_oracle(all_canon(&t.state), "initial state not canonical")
         }
         ("const", [c]) => match c.sym()? {
             "lookup_table" => Out::ok(format!("ok:{}", fmt_list_u64(&LOOKUP_TABLE.map(|x| x as u64)))),
